@@ -4,6 +4,8 @@
 WITNESS = {
     "partition": {"target": "src/common/partition.rs", "src": "units/partition/witness.rs"},
     "toi": {"target": "src/sender/toiallocator.rs", "src": "units/toi/witness.rs"},
+    "getext": {"target": "src/common/lct.rs", "src": "units/getext/witness.rs"},
+    "ntp": {"target": "src/tools/mod.rs", "src": "units/ntp/witness.rs"},
 }
 
 PROPS = {
@@ -40,11 +42,18 @@ PROPS["C15"] = {
 KANI_WIRE = [
     {"target": "src/tools/error.rs", "src": "units/wire/kani_stubs.rs"},
     {"target": "src/common/lct.rs", "src": "units/wire/kani_lct.rs"},
+    {"target": "src/common/alc.rs", "src": "units/wire/kani_alc.rs"},
+    {"target": "src/common/alccodec/alcnocode.rs", "src": "units/wire/kani_alcnocode.rs"},
+    {"target": "src/common/alccodec/alcrs28.rs", "src": "units/wire/kani_alcrs28.rs"},
+    {"target": "src/common/alccodec/alcrs28underspecified.rs", "src": "units/wire/kani_alcrs28underspecified.rs"},
+    {"target": "src/common/alccodec/alcrs2m.rs", "src": "units/wire/kani_alcrs2m.rs"},
+    {"target": "src/common/alccodec/alcraptorq.rs", "src": "units/wire/kani_alcraptorq.rs"},
+    {"target": "src/common/alccodec/alcraptor.rs", "src": "units/wire/kani_alcraptor.rs"},
 ]
 
 PROPS["C06"] = {
     "level": "proof",
-    "verus": [],
+    "verus": ["getext", "ntp"],
     "kani": KANI_WIRE,
     "structural": [],
     "not_covered": [],
@@ -55,7 +64,7 @@ PROPS["C06"] = {
 }
 PROPS["C04"] = {
     "level": "proof",
-    "verus": [],
+    "verus": ["getext"],
     "kani": KANI_WIRE,
     "structural": [],
     "not_covered": [],
